@@ -296,6 +296,30 @@ async fn prog_fs(name: String, l: Log, p: Value) -> turmoil::Result {
         }
         Err(e) => log(&l, &name, format!("startup listing err {:?}", e.kind())),
     }
+    // two overlapping background jobs, each working under an FsHandle guard; the one that started first
+    // finishes first (guards are not dropped in last-in-first-out order)
+    {
+        use turmoil::fs::FsHandle;
+        let h1 = FsHandle::current();
+        let (l1, n1) = (l.clone(), name.clone());
+        let job1 = tokio::task::spawn_local(async move {
+            let _guard = h1.enter();
+            let w = OpenOptions::new().write(true).create(true).open("/d/job1").and_then(|f| f.write_at(b"job1", 0));
+            tokio::time::sleep(Duration::from_millis(3)).await;
+            log(&l1, &n1, format!("job1 -> {:?}", w.map_err(|e| e.kind())));
+        });
+        tokio::time::sleep(Duration::from_millis(1)).await;
+        let h2 = FsHandle::current();
+        let (l2, n2) = (l.clone(), name.clone());
+        let job2 = tokio::task::spawn_local(async move {
+            let _guard = h2.enter();
+            tokio::time::sleep(Duration::from_millis(6)).await;
+            let w = OpenOptions::new().write(true).create(true).open("/d/job2").and_then(|f| f.write_at(b"job2", 0));
+            log(&l2, &n2, format!("job2 -> {:?}", w.map_err(|e| e.kind())));
+        });
+        let _ = job1.await;
+        let _ = job2.await;
+    }
     for round in 0..p["rounds"].as_u64().unwrap_or(3) {
         for i in 0..nfiles {
             let nm = format!("/d/{}{}", ["zeta", "alpha", "mid", "kappa", "beta", "omega", "b", "aa"][(i % 8) as usize], i);
